@@ -4,6 +4,7 @@ instances with their dialect objects, catalog objects).
 
 Used ONLY to direct the schedule search (which functions write state that other calls can see -> dense pre-emption there),
 never as an oracle: a change in such state is not a violation, only a wrong result is."""
+import os
 import sys
 import types
 
@@ -91,7 +92,27 @@ def roots(repo_prefixes, shared_objects=()):
         pass
     for name, obj in shared_objects:
         out.append((name, (lambda o=obj: o)))
+    out.extend(interp_roots())
     return out
+
+
+def interp_roots():
+    """Settings of the interpreter that every thread of the process shares.  A call may change one and put it back before it
+    returns, so these are also looked at line by line (find_write_functions), not only between ops."""
+    import decimal
+    import gc
+    import locale
+    import warnings
+    return [
+        ('interp:recursionlimit', sys.getrecursionlimit),
+        ('interp:switchinterval', sys.getswitchinterval),
+        ('interp:gc', (lambda: (gc.isenabled(), gc.get_threshold()))),
+        ('interp:warnings', (lambda: len(warnings.filters))),
+        ('interp:decimal', (lambda: repr(decimal.getcontext()))),
+        ('interp:locale', (lambda: locale.setlocale(locale.LC_ALL))),
+        ('interp:sys.path', (lambda: len(sys.path))),
+        ('interp:cwd-env', (lambda: (os.getcwd(), len(os.environ), os.environ.get('TZ')))),
+    ]
 
 
 def fingerprint(rootlist):
@@ -127,7 +148,8 @@ def fingerprint_light(rootlist):
     out = []
     for path, get in rootlist:
         try:
-            out.append(light(get()))
+            # a shared statement tree is small and its edits are deep inside (a column of a CREATE TABLE): full digest
+            out.append(_dg(get()) if path.startswith('tree[') else light(get()))
         except Exception as e:  # noqa
             out.append('ERR')
     return out
